@@ -12,7 +12,7 @@ ALLOPS = {'Full', 'Matricize', 'Elements', 'IsOperator', 'Norm2', 'Norm1', 'Resi
           'TT2QTT', 'QTT2TT', 'OrthoLeft', 'OrthoRight', 'Ortho', 'OrthoTrunc', 'Svd', 'Pinv'}
 
 CONSTS = dict(Scenarios=set(), Lean=False, MaxD=6, MaxDB=6, DimsR={1}, DimsC={1}, RanksS={1}, KindPairs={('real', 'real')},
-              Seeds={1}, MaxDepth=64, NShards=1, Shard=0, Vias={'matmul', 'dot'}, OWs={False, True}, QL=3, EmitAll=False)
+              Seeds={1}, MaxDepth=64, NShards=1, Shard=0, Vias={'matmul', 'dot'}, OWs={False, True}, QL=3, EmitAll=False, IslLevel=0)
 
 
 def _record_chunk(args):
